@@ -5,7 +5,7 @@ PID = "C02"
 
 
 def run(v):
-    n, steps = (24, 30) if v.tier == "quick" else (180, 36)
+    n, steps = (48, 30) if v.tier == "quick" else (180, 36)
     # quick: deterministic, replayable interleavings only (commits injected at log points inside the
     # protocols); thorough: additionally a real concurrent writer goroutine (schedule-dependent)
     extra = ["-concurrent"] if v.tier == "thorough" else []
